@@ -5,6 +5,7 @@ import (
 	"os"
 	"os/exec"
 	"path/filepath"
+	"strings"
 	"testing"
 
 	"pgregory.net/rapid"
@@ -27,7 +28,7 @@ func TestGenValid(t *testing.T) {
 		cmd := exec.Command("go", "build", "-o", filepath.Join(dir, "prog"), ".")
 		cmd.Dir = dir
 		if out, err := cmd.CombinedOutput(); err != nil {
-			t.Fatalf("gc rejects generated module: %s", out)
+			t.Fatalf("gc rejects generated module: %s\n%s", out, numberedMain(p.Files["main.go"]))
 		}
 		out, _ := exec.Command(filepath.Join(dir, "prog")).CombinedOutput()
 		for _, u := range p.Units {
@@ -45,4 +46,12 @@ func containsLine(out, prefix string) bool {
 		}
 	}
 	return false
+}
+
+func numberedMain(src string) string {
+	var b strings.Builder
+	for i, ln := range strings.Split(src, "\n") {
+		fmt.Fprintf(&b, "%4d  %s\n", i+1, ln)
+	}
+	return b.String()
 }
